@@ -5,13 +5,13 @@ Local Open Scope Qc_scope.
 
 (* setup() reads only the upper triangle of P: any two P with equal upper triangles (arbitrary lower triangles) give the
    same solver object, hence the same results for every later call history *)
-Theorem C10_setup_reads_upper_only : forall K ident junk S n p m B P Q,
-  same_upper P Q -> setup K ident junk S n p m (with_P B P) = setup K ident junk S n p m (with_P B Q).
+Theorem C10_setup_reads_upper_only : forall K ident spc junk S n p m B P Q,
+  same_upper P Q -> setup K ident spc junk S n p m (with_P B P) = setup K ident spc junk S n p m (with_P B Q).
 Proof. exact setup_reads_upper_only. Qed.
 Print Assumptions C10_setup_reads_upper_only.
 
-Theorem C10_update_reads_upper_only : forall K sv B P Q reuse,
-  same_upper P Q -> update K sv (with_P B P) reuse = update K sv (with_P B Q) reuse.
+Theorem C10_update_reads_upper_only : forall K spc sv B P Q reuse,
+  same_upper P Q -> update K spc sv (with_P B P) reuse = update K spc sv (with_P B Q) reuse.
 Proof. exact update_reads_upper_only. Qed.
 Print Assumptions C10_update_reads_upper_only.
 
